@@ -7,7 +7,9 @@ import "fmt"
 //
 //	1. every variable reference is bound by a declared param, an enclosing let
 //	   or loop, or is $ij; a let is in scope after its definition until the end
-//	   of its block, a loop variable only inside the loop body;
+//	   of its block, a loop variable only inside the loop body; index($x),
+//	   isFirst($x) and isLast($x) refer to the position of a loop variable and
+//	   are bound by an enclosing loop over $x only;
 //	2. every declared param and every let is used (a param also counts as used
 //	   when a data="all" call forwards it to a callee that declares it);
 //	3. every call names an existing template, passes only params the callee
@@ -78,6 +80,19 @@ func (c *checker) resolve(name string) *binding {
 
 func (c *checker) expr(e *Expr) {
 	e.Walk(func(x *Expr) {
+		if x.Op == "call" && (x.Name == "index" || x.Name == "isFirst" || x.Name == "isLast") {
+			// the position functions refer to the iteration state of a loop variable: that is bound by
+			// an enclosing loop of that name and by nothing else (a param or a let has no position)
+			bound := false
+			if len(x.Args) == 1 && x.Args[0].Op == "ref" && len(x.Args[0].Access) == 0 {
+				for _, b := range c.stack {
+					bound = bound || b.kind == "loop" && b.name == x.Args[0].Name
+				}
+			}
+			if !bound {
+				c.errf("template %s: %s() is not given the variable of an enclosing loop", c.tmpl.Name, x.Name)
+			}
+		}
 		if x.Op != "ref" || x.Name == "ij" {
 			return
 		}
